@@ -176,12 +176,12 @@ PROPS = {
         "level": "other",
         "rules": [("CP", 4, has("cached_semantic_hash:sign", "check_cached_hash_and_neg")), ("IM", 3, has("IM5:semantic_hash")),
                   ("NB", 33, None), ("IC", 4, has("create_semantic_hash_map")), ("GL", 6, has("GL7", "GL3:return-found")), ("WC", 2, has("sdd-apply-cache")), ("RH", 1, has("grow:rehome")),
-                  ("CP", 3, has("decision_nnf::builder::DecisionNNFBuilder::cond_helper")), ("SE", 11, None)],
+                  ("CP", 3, has("decision_nnf::builder::DecisionNNFBuilder::cond_helper")), ("SE", 11, None), ("WC", 6, has("sdd-node"))],
         "explanation": "Hash values follow the pointer's sign (complemented -> negate(hash of the regular pointer)) and a node "
                        "found under the negated hash is returned complemented, in both semantic builders (CP-hash); the per-node "
                        "hash cache has one writer (IM5); field arithmetic stays in range for every exported prime (NB); hash "
                        "maps are sized by variable counts (IC). Not decided: that the hash is determined by the function "
-                       "(an algebraic identity over a random point), collision freedom, correctness of the semantic builders. Added: a hash hit is returned exactly as found and the semantic SDD builder decides equality by hashes on every path (SE1, SE2). Added after the fourth seeding round: the unique table compares the *whole* stored hash with the requested one before it returns a stored node (GL3 return-found); in by-hash mode that comparison is the only identity test the semantic builders have. Ownership (WC sdd caches): the apply cache is keyed by the operands of a conjunction and the ite cache by a standard triple; neither key names the operation, so app_cache_* is used by `and` only and ite_cache_* by `ite` only (or by private helpers of those). A second operation filed under such keys is reported.",
+                       "(an algebraic identity over a random point), collision freedom, correctness of the semantic builders. Added: a hash hit is returned exactly as found and the semantic SDD builder decides equality by hashes on every path (SE1, SE2). Added after the fourth seeding round: the unique table compares the *whole* stored hash with the requested one before it returns a stored node (GL3 return-found); in by-hash mode that comparison is the only identity test the semantic builders have. Ownership (WC sdd caches): the apply cache is keyed by the operands of a conjunction and the ite cache by a standard triple; neither key names the operation, so app_cache_* is used by `and` only and ite_cache_* by `ite` only (or by private helpers of those). A second operation filed under such keys is reported. Added: WC sdd-node — the hash-identified SDD builder returns correct diagrams for quantification and conditioning only if decision nodes are built by the operations that establish which vtree side primes and subs live on.",
     },
     "C02": {
         "level": "other",
@@ -320,9 +320,9 @@ PROPS = {
         "level": "other",
         "rules": [("MP", 8, None), ("SL", 7, None), ("CP", 3, has("ser_bdd")), ("VO", 3, has("var_at_level", "VarOrder::new:inverse-by-construction")),
                   ("CN", 1, has("dedup")), ("DP", 9, has("from_dimacs:sign", "from_sexpr")), ("DP", 4, has("compile_logical_expr", "BottomUpPlan::from_dtree")), ("SR", 1, has("ser_bdd")),
-                  ("NC", 2, has("Cnf::from_dimacs")), ("MF", 4, None), ("EM", 3, has("DTree::from_cnf", "force_order", "average_span"))],
+                  ("NC", 4, has("Cnf::from_dimacs", "DTree::from_cnf")), ("MF", 4, None), ("EM", 3, has("DTree::from_cnf", "force_order", "average_span")), ("SH", 1, has("ite_helper:SH1"))],
         "explanation": "In each tool the counted / serialised diagram is the compiled one, compiled on a builder whose order "
                        "comes from the same formula; counts are taken on smooth(_, num_vars); weights are keyed by the "
-                       "expression's own variable mapping (MP, SL2). Not decided: the printed numbers. Added after the fourth seeding round: VarOrder::new fills var_to_pos as the inverse of pos_to_var (VO inverse-by-construction); apply reads one table and smoothing the other. Added after the fourth seeding round: the DIMACS reader keeps every clause and every literal of the text (NC: every iteration of a loop over the items pushes onto its accumulator; an iterator chain from the items to collect() has no filter/skip/take/dedup) - a dropped clause gives the result extra models while everything downstream stays consistent. Added: MF — the `auto_minfill` order the tools compile under is a permutation of the variables by construction (see C14). Added: EM — empty cases by abstract evaluation under the assumption that one collection is empty (loops over it do not run, len = 0, pop/last/next = None): what the CNF tool's strategies (dtree plan, auto_force order) do on degenerate inputs: D13 repaired, the dtree of the empty formula is a known finding.",
+                       "expression's own variable mapping (MP, SL2). Not decided: the printed numbers. Added after the fourth seeding round: VarOrder::new fills var_to_pos as the inverse of pos_to_var (VO inverse-by-construction); apply reads one table and smoothing the other. Added after the fourth seeding round: the DIMACS reader keeps every clause and every literal of the text (NC: every iteration of a loop over the items pushes onto its accumulator; an iterator chain from the items to collect() has no filter/skip/take/dedup) - a dropped clause gives the result extra models while everything downstream stays consistent. Added: MF — the `auto_minfill` order the tools compile under is a permutation of the variables by construction (see C14). Added: EM — empty cases by abstract evaluation under the assumption that one collection is empty (loops over it do not run, len = 0, pop/last/next = None): what the CNF tool's strategies (dtree plan, auto_force order) do on degenerate inputs: D13 repaired, the dtree of the empty formula is a known finding. Added: SH1 — the formula tool compiles Ite/Xor/Iff through ite_helper, whose decision node is node(first essential variable of (f,g,h), ite of the false-cofactors, ite of the true-cofactors).",
     },
 }
